@@ -7,6 +7,9 @@ translate/leafs.py's translator, which this file only imports):
   * elem_size(IntEncoding), elem_size(VertexEncoding)                                                      (ovmb_format.hh)
   * suitable_int_encoding(uint32_t)                                                                        (ovmb_format.cc)
   * the padding arithmetic of BinaryFileWriter::write_chunk (`padded`, `header.padding_bytes`)             (BinaryFileWriter.cc)
+  * the WIDTH in which the reader computes its two size products (BinaryFileReader.cc): `header.valence * header.span.count`
+    initialising `total_handles` in read_topo_chunk, and `header.span.count * pos_size` in the size comparison of
+    read_vertices_chunk - the type clang gives the `*` BinaryOperator (after the usual arithmetic conversions)
   * ovmb_size<FileHeader|ChunkHeader|ArraySpan|PropChunkHeader|VertexChunkHeader|TopoChunkHeader>, the magic bytes and
     max_handle_idx: VALUED - a 10-line program including the real headers is compiled and run and its output recorded
     (these are initialisers of non-constexpr inline variables / an extern array; their value is what the compiler computes)
@@ -23,6 +26,7 @@ VERIF = leafs.VERIF
 FMT_HH = os.path.join(REPO, "src/OpenVolumeMesh/IO/detail/ovmb_format.hh")
 FMT_CC = os.path.join(REPO, "src/OpenVolumeMesh/IO/detail/ovmb_format.cc")
 WRITER_CC = os.path.join(REPO, "src/OpenVolumeMesh/IO/detail/BinaryFileWriter.cc")
+READER_CC = os.path.join(REPO, "src/OpenVolumeMesh/IO/detail/BinaryFileReader.cc")
 
 ENUMS = ["IntEncoding", "PropertyEntity", "TopoEntity", "TopoType", "VertexEncoding", "ChunkFlags", "ChunkType"]
 
@@ -148,6 +152,72 @@ def padding_defs():
             "Definition write_chunk_padding_bytes (p_len : Z) : Z :=\n  let padded := write_chunk_padded p_len in\n  %s." % padding,
             "Definition write_chunk_file_length (p_len : Z) : Z :=\n  let padded := write_chunk_padded p_len in\n  %s." % flen]
 
+# ---- the width of the reader's size products
+PRODUCT_BITS = {"unsigned long": 64, "unsigned long long": 64, "uint64_t": 64, "size_t": 64, "std::size_t": 64,
+                "unsigned int": 32, "uint32_t": 32, "int": 32}
+
+def strip_casts(n):
+    """through implicit casts, static_cast / functional / C-style casts to an integer type, and parentheses"""
+    while n.get("kind") in ("ImplicitCastExpr", "CXXStaticCastExpr", "CXXFunctionalCastExpr", "CStyleCastExpr", "ParenExpr"):
+        inner = [c for c in n.get("inner", []) if c.get("kind") != "TemplateArgument"]
+        if len(inner) != 1: raise Unsupported("cast with %d children" % len(inner))
+        n = inner[0]
+    return n
+
+def operand_name(n):
+    """`header.valence` -> valence, `header.span.count` -> count, `pos_size` -> pos_size"""
+    n = strip_casts(n)
+    if n.get("kind") == "MemberExpr": return n.get("name")
+    if n.get("kind") == "DeclRefExpr": return (n.get("referencedDecl") or {}).get("name")
+    return None
+
+def product_bits(mul, what, names):
+    if mul.get("kind") != "BinaryOperator" or mul.get("opcode") != "*":
+        raise Unsupported("%s: expected a multiplication, found %s" % (what, mul.get("kind")))
+    ops = sorted(str(operand_name(c)) for c in mul["inner"])
+    if ops != sorted(names): raise Unsupported("%s: expected the product of %s, found operands %s" % (what, names, ops))
+    t = qual(mul)
+    if t not in PRODUCT_BITS: raise Unsupported("%s: product computed in unsupported type '%s'" % (what, t))
+    return PRODUCT_BITS[t]
+
+def method_body(tu, name):
+    docs = clang_ast(tu, "BinaryFileReader::" + name)
+    bodies = []
+    for d in docs:
+        find_all(d, lambda n: n.get("kind") == "CXXMethodDecl" and n.get("name") == name
+                 and any(c.get("kind") == "CompoundStmt" for c in n.get("inner", [])), bodies)
+    if len(bodies) != 1: raise Unsupported("BinaryFileReader::%s: expected one body, found %d" % (name, len(bodies)))
+    return [c for c in bodies[0]["inner"] if c.get("kind") == "CompoundStmt"][0]
+
+def reader_product_defs():
+    # (a) read_topo_chunk:  uint64_t total_handles = <header.valence * header.span.count, possibly under casts>;
+    body = method_body(READER_CC, "read_topo_chunk")
+    vds = []
+    find_all(body, lambda n: n.get("kind") == "VarDecl" and n.get("name") == "total_handles", vds)
+    if len(vds) != 1 or not vds[0].get("inner"): raise Unsupported("read_topo_chunk: expected one initialised variable 'total_handles'")
+    init = vds[0]["inner"][0]
+    # the initialiser is the product itself or an implicit conversion of it to the variable's type (NOT an explicit cast of
+    # the product: that would not change the width the product is computed in, and strip_casts must not hide it either way)
+    while init.get("kind") == "ImplicitCastExpr": init = init["inner"][0]
+    topo = product_bits(init, "read_topo_chunk: initialiser of total_handles", ["valence", "count"])
+    # (b) read_vertices_chunk:  if (reader.remaining_bytes() != header.span.count * pos_size)
+    body = method_body(READER_CC, "read_vertices_chunk")
+    hits = []
+    def is_size_cmp(n):
+        if n.get("kind") != "BinaryOperator" or n.get("opcode") != "!=": return False
+        calls = []
+        find_all(n["inner"][0], lambda x: x.get("kind") == "MemberExpr" and x.get("name") == "remaining_bytes", calls)
+        return bool(calls)
+    find_all(body, is_size_cmp, hits)
+    if len(hits) != 1: raise Unsupported("read_vertices_chunk: expected one comparison remaining_bytes() != ..., found %d" % len(hits))
+    rhs = hits[0]["inner"][1]
+    while rhs.get("kind") == "ImplicitCastExpr": rhs = rhs["inner"][0]
+    vert = product_bits(rhs, "read_vertices_chunk: size comparison", ["count", "pos_size"])
+    return ["(* width of `header.valence * header.span.count` (read_topo_chunk) and of `header.span.count * pos_size`\n"
+            "   (read_vertices_chunk) in BinaryFileReader.cc: the type of the multiplication after the usual arithmetic conversions *)\n"
+            "Definition topo_product_bits : Z := %d." % topo,
+            "Definition vert_product_bits : Z := %d." % vert]
+
 VALUED_SRC = r'''
 #include <OpenVolumeMesh/IO/detail/ovmb_format.hh>
 #include <OpenVolumeMesh/IO/detail/BinaryFileReader.hh>
@@ -219,13 +289,14 @@ def gen_ovmb_format(out_path=None):
     if not sie: raise Unsupported("suitable_int_encoding body not found")
     defs.append(translate_function_io(sie[0], "suitable_int_encoding", tables["IntEncoding"]))
     defs += padding_defs()
+    defs += reader_product_defs()
     v = valued()
     for k in ("FileHeader", "ChunkHeader", "ArraySpan", "PropChunkHeader", "VertexChunkHeader", "TopoChunkHeader"):
         defs.append("Definition ovmb_size_%s : Z := %d." % (k, v[k][0]))
     defs.append("Definition max_handle_idx : Z := %d." % v["max_handle_idx"][0])
     defs.append("Definition ovmb_magic : list Z := [%s]." % "; ".join(str(b) for b in v["magic"]))
     text = ("(* Gen/OvmbFormat.v -- GENERATED by translate/leafs_io.py from src/OpenVolumeMesh/IO/detail/ovmb_format.hh/.cc and\n"
-            "   BinaryFileWriter.cc of the current /repo working tree.  Do not edit. *)\n"
+            "   BinaryFileWriter.cc, BinaryFileReader.cc of the current /repo working tree.  Do not edit. *)\n"
             "From OVM Require Import Base.Int32.\nFrom Coq Require Import List.\nImport ListNotations.\nLocal Open Scope Z_scope.\n\n"
             + "\n\n".join(defs) + "\n")
     if out_path:
